@@ -105,7 +105,7 @@ CLAIMED = {
             "Every graph over 2 (quick) / 3 and a 4-type deep family (thorough) user types gets the TLC verdict (accept / reject / missing with the "
             "missing names); Check must agree and name a missing type, UsedUserTypes must be the duplicate-free reference set of the root text, and on "
             "accepted graphs Example and Validate must return (fatal stack overflows and hangs are pinned to the graph in flight). For every third graph the root is given only the types its text names, for every third one every schema only "
-            "the ones its own text names; Known.tla decides all 52 128 (quick) / about 2.4 million (thorough) ways of giving three types to each other and the root and of writing the references. TLC checks that the "
+            "the ones its own text names; Known.tla decides all 52 128 (quick) / 1 449 984 (thorough) ways of giving three types to each other and the root and of writing the references. TLC checks that the "
             "implementation-shaped model agrees with the requirement under the mesh protocol; the two recorded deviations are attributed only where "
             "that model predicts them.",
             "Graphs beyond 4 types are not enumerated; uninhabited or dangling types the root cannot reach are unspecified; which of two "
